@@ -583,7 +583,40 @@ fn normalise(i: &mut GIface) {
 }
 
 /// "An interface assembled from derived descriptions renders to text that parses back to an equal description."
+/// `[A-Za-z](_?[A-Za-z0-9])*` - a Rust field called `type_` or `_id` is described under that name (the property:
+/// "under their Rust names"), but such a description has no IDL text: rendering and parsing is only demanded of
+/// descriptions with legal names.
+fn legal_field_name(n: &str) -> bool {
+    let b = n.as_bytes();
+    !b.is_empty()
+        && b[0].is_ascii_alphabetic()
+        && *b.last().unwrap() != b'_'
+        && !n.contains("__")
+        && b.iter().all(|c| c.is_ascii_alphanumeric() || *c == b'_')
+}
+
+fn all_field_names_legal(i: &GIface) -> bool {
+    fn ty(t: &GTy) -> bool {
+        match t {
+            GTy::Optional(i) | GTy::Array(i) | GTy::Map(i) => ty(i),
+            GTy::Struct(fs) => fs.iter().all(|f| legal_field_name(&f.name) && ty(&f.ty)),
+            _ => true,
+        }
+    }
+    let fields = |fs: &Vec<GField>| fs.iter().all(|f| legal_field_name(&f.name) && ty(&f.ty));
+    i.members.iter().all(|m| match m {
+        GMember::Type { body: GBody::Struct(fs), .. } => fields(fs),
+        GMember::Type { .. } => true,
+        GMember::Method { inputs, outputs, .. } => fields(inputs) && fields(outputs),
+        GMember::Error { fields: fs, .. } => fields(fs),
+    })
+}
+
 fn roundtrip(rep: &mut Report, name: &str, i: &zlink_core::idl::Interface<'_>, tree: &GIface) {
+    if !all_field_names_legal(tree) {
+        rep.count("derived_descriptions_with_rust_names_outside_the_idl_grammar_not_rendered");
+        return;
+    }
     rep.evaluations += 1;
     let replay = json!({"monitor": "c16", "item": name});
     let text = i.to_string();
